@@ -70,6 +70,8 @@ def run(ctx):
             tp = os.path.join(ctx.scratch, "trace-%s%s.ndjson" % (kind, tag))
             s, _ = ctx.drive(d, ["-mode", "record", "-kind", kind, "-trace", tp, "-runs", ctx.pick(150, 1500), "-caps", CAPS],
                              name="c50-record-%s%s" % (kind, tag))
+            if not os.path.exists(tp) or os.path.getsize(tp) == 0:      # the driver died (reported as a violation by ctx.drive)
+                continue
             ok, consumed, total, r = ctx.validate("net/FeedTrace", tp, ntraces=s["traces"], timeout=7200, cfg="net/FeedTraceDFS", dfs=True,
                                                   silent_steps=True, name="FeedTrace-%s%s" % (kind, tag))
             if not ok:
